@@ -39,6 +39,7 @@ def paths(fn, max_paths=4000, max_loop=1):
         return d
 
     retval = [None]
+    discr_vals = {}
 
     def step_block(bb, env, effects, lastret):
         b = fn.blocks[bb]
@@ -75,6 +76,8 @@ def paths(fn, max_paths=4000, max_loop=1):
                     val = ("expr", a[1])
             elif rv["k"] == "discr":
                 val = ("expr", show(norm(ex.rvalue(rv, (bb, si)))))
+                if rv.get("vars"):
+                    discr_vals[val[1]] = sorted(int(v) for v, _ in rv["vars"])
             elif rv["k"] in ("binop", "cast"):
                 val = ("expr", show(norm(ex.rvalue(rv, (bb, si)))))
             elif rv["k"] == "agg":
@@ -146,6 +149,9 @@ def paths(fn, max_paths=4000, max_loop=1):
             for v, b in targets + [("other", other)]:
                 if v == "other":
                     val = ("not-in", tuple(x for x, _ in targets))
+                    rest = [x for x in discr_vals.get(name, []) if x not in val[1]]
+                    if name in discr_vals and len(rest) == 1:
+                        val = rest[0]     # the only remaining variant of the enum
                     if is_bool and [x for x, _ in targets] == [0]:
                         val = 1
                     elif is_bool and [x for x, _ in targets] == [1]:
